@@ -120,6 +120,11 @@ def vector_shapes(rep, thorough):
     from cryptoparser.tls.ciphersuite import TlsCipherSuite
     events = []
     by_code = {c.value.code: c for c in TlsCipherSuite}
+    try:
+        from cryptodatahub.tls.algorithm import TlsCipherSuiteExtension
+    except ImportError:
+        from cryptoparser.tls.subprotocol import TlsCipherSuiteExtension
+    by_code.update({c.value.code: c for c in TlsCipherSuiteExtension})
     ordinary = [c for c in TlsCipherSuite if c.value.code not in (0x00ff, 0x5600)][:50]
     plans = {
         'hello-many-suites': lambda n: [ordinary[i % len(ordinary)] for i in range(n)],
